@@ -9,6 +9,19 @@ AX_R = ('axioms: the three real-number axioms of the Coq standard library (Class
         'sig_forall_dec, FunctionalExtensionality.functional_extensionality_dep) where Reals are used; ')
 
 CHECKS = {
+    'C08': dict(
+        technique='Coq proof over R (field/ring/lra, Lagrange identity) about a hand-written model, over abstract arithmetic, of one random sample as a function of the normal draws it consumes; bit-exact PrimFloat correspondence against the real generators fed with recorded draws',
+        text='Theorems in coq/Props/C08.v: the normalised six Gaussian draws have unit norm and the joint density of the draws depends only on '
+             'their sum of squares, hence is invariant under every rotation of the sqrt2-weighted six-vector space (uniformity on the '
+             '6-sphere); for every pair of non-parallel vector draws the three axes are orthonormal; the assembled six-vector has unit '
+             'norm and, as a tensor, exactly the prescribed eigenvalues on those axes (double-couple, CLVD, any pattern). All for every '
+             'value of the draws, i.e. every state of the generator. The unit tests check shape and norm of one draw.',
+        note=AX_R + 'the model is hand-written and tied by correspondence only: every returned sample must equal bit for bit the model on the '
+             'draws of its own column (this also shows that samples use independent draws). The step from a rotation-invariant density '
+             'to the law of the normalised vector, and from an isotropic frame to uniform orientation, is the standard argument and is '
+             'not formalised measure-theoretically; numpy.random is trusted; distributions are additionally sampled (7-sigma bands). '
+             'The compiled generators are unavailable (C20).',
+        design='6 C08'),
     'C17': dict(
         technique='Coq proof (list induction) about a hand-written executable model of header-driven CSV event parsing and of the binary moment-tensor record codec; vm_compute correspondence against parse_csv on generated files and against the bytes written by _convert_mt_space_to_struct / read by read_binary_output',
         text='Theorems in coq/Props/C17.v: a CSV row is read back field for field for every column order (extra columns allowed); an event '
